@@ -1,4 +1,5 @@
 """C13 harness: position algebra, enumeration, counters vs visits."""
+import os
 import sys
 
 from .common import Harness, lean_driver, diff_streams
@@ -221,6 +222,42 @@ def main():
                 h.violation(f"history-crash:{c.line()}", f"count / subpyramid / count on one object [{c.line()}] raised {e!r}", input=c.line())
         if len(h.samples) < 3 and c.acc:
             h.sample({"case": c.line(), "counts": [nl, nv, no]})
+    # ---- what a filtered sampling run VISITS: the leaves of the pyramid of the requested coordinate system under a filter that
+    # looks at the tiles' coordinates (a position filter cannot tell the two systems apart)
+    try:
+        import shutil
+        import tempfile
+        import warnings
+        import numpy as np
+        from toasty import toast, samplers
+        from toasty.pyramid import PyramidIO
+        CS = toast.ToastCoordinateSystem
+        vroot = tempfile.mkdtemp(prefix="vfc13_")
+        try:
+            for bi in range(6 if h.deep else 3):
+                lon0 = rng.uniform(0.0, 6.0)
+                box = (lon0, lon0 + rng.uniform(0.3, 1.2), rng.uniform(-1.2, 0.2), rng.uniform(0.3, 1.2))
+                depth = rng.choice([2, 3])
+                for nm, cs in (("a", CS.ASTRONOMICAL), ("p", CS.PLANETARY)):
+                    flt = samplers._latlon_tile_filter(*box)
+                    want = sorted((t.pos.n, t.pos.x, t.pos.y) for t in toast.generate_tiles_filtered(depth, flt, bottom_only=True, coordsys=cs))
+                    base = os.path.join(vroot, f"b{bi}{nm}")
+                    pio = PyramidIO(base, default_format="npy")
+                    with warnings.catch_warnings():
+                        warnings.simplefilter("ignore")
+                        toast.sample_layer_filtered(pio, flt, (lambda lon, lat: np.ones(np.shape(lon), dtype=np.float64)), depth, coordsys=cs, parallel=1)
+                    from toasty.pyramid import Pos
+                    got = sorted((depth, x, y) for x in range(2 ** depth) for y in range(2 ** depth) if os.path.exists(pio.tile_path(Pos(depth, x, y), makedirs=False)))
+                    h.case(("visited-filtered", nm, depth, tuple(round(v, 6) for v in box)))
+                    h.count("visited-filtered", nm)
+                    if got != want:
+                        h.violation(f"visited:{nm}", f"{nm} system, depth {depth}, lon/lat box {tuple(round(v, 4) for v in box)}: sample_layer_filtered visited {len(got)} leaves, the filtered pyramid of that system has {len(want)}: "
+                                    f"only visited {sorted(set(got) - set(want))[:3]}, never visited {sorted(set(want) - set(got))[:3]}", input={"system": nm, "depth": depth, "box": list(box)})
+        finally:
+            shutil.rmtree(vroot, ignore_errors=True)
+    except Exception as e:
+        import traceback
+        h.violation("visited:crash", f"filtered sampling run raised {type(e).__name__}: {e}", input="visited-filtered", observed=traceback.format_exc()[-500:])
     try:
         out = lean_driver(lines)
         diff_streams(h, "model-vs-impl", lines, py, out)
